@@ -28,7 +28,7 @@ def check(tier: str) -> Result:
     n = axis_rules.add_obligations(res, tree, "C07.R1", scope="all")
     per = {k.split(":")[1]: v for k, v in res.extra.get("axis_sites_per_environment", {}).items()}
     low = {e: (per.get(e, 0), m) for e, m in MIN_PER_ENV.items() if per.get(e, 0) < m}
-    if n < MIN_TOTAL or low:
+    if (n < MIN_TOTAL or low) and not any(o.ok is False for o in res.obligations):
         raise AnalysisError(f"typed check sites below the hand-confirmed minimum: total {n} (>= {MIN_TOTAL}), per environment {low}")
     res.analysed = {"strict_environments": axis_rules.STRICT, "typed_sites": n, "per_environment": per}
     res.assumptions = ["row-major arrays; the repository's naming convention for extents (confirmed by reading all 23 environments)",
